@@ -12,8 +12,9 @@ META = dict(
     explanation='Path-wise symbolic execution (engine/symir.py, z3) of the real network/dns_request.cpp with util::Deserializer/Serializer, std::map and eventx::TimeoutMonitor, on a link seam for network::UdpSocket and a fake loop/timer. '
                 'Datagrams: fully symbolic packets; a reply template (header, question, one answer) with symbolic answer count, compression pointer, record type/rdlength, first label length, truncated at every offset; a packet whose label length octet takes all 256 values in front of 200 data bytes. '
                 'The engine memory model reports out-of-bounds and use-after-free accesses and every branch/index/string operation that depends on uninitialised bytes; a call depth above 80 frames is reported as unbounded recursion; the harness bounds the number of reported records by what the datagram can encode and checks the well-formed reply. '
-                'Completion: reply / foreign reply / timer tick / cancel in every order of 4 steps; callback exactly once, never after cancel.',
-    bounds='arbitrary datagrams <= 13 bytes; 37-byte template with 5 families of symbolic bytes x every truncation; 216-byte long-label packet; completion scripts of 4 steps with one lookup; timeout monitor as in C14',
-    outside='replies with more than one answer record; several DNS servers / duplicated replies (response_count path); request() encoding; packets > 216 bytes',
+                'Completion: reply / foreign reply / timer tick / cancel in every order of 4 steps; callback exactly once, never after cancel.'
+                ' Extended: two servers and a first reply with ANY response code 1..15 followed by a good reply or another error code (documented status per code, never success without data); the real UdpSocket receive path with a recvfrom seam obeying the kernel contract (MSG_TRUNC returns the real length) for datagram sizes around the 4096-byte buffer.',
+    bounds='arbitrary datagrams <= 13 bytes; 37-byte template with 5 families of symbolic bytes x every truncation; 216-byte long-label packet; completion scripts of 4 steps with one lookup; timeout monitor as in C14; rcode: 2 servers, 2 replies; UDP sizes {0,1,100,4095,4096,4097,5633,65507}',
+    outside='replies with more than one answer record; request() encoding; packets > 216 bytes; more than two servers',
     assumptions=['UdpSocket seam: send succeeds, enable/disable only toggle a flag', 'uninitialised reads are reported on the engine\'s evidence (ASan/UBSan cannot observe them natively)'],
     trusted_base=['clang++-14 -O1 IR', 'engine/symir.py (+ rb-tree, std::string, ostringstream models)', 'z3', 'harness/vp_fakes.hpp'])
